@@ -2,6 +2,7 @@ package props
 
 import (
 	"fmt"
+	"math/big"
 	"strings"
 
 	"cosmossdk.io/math"
@@ -33,6 +34,25 @@ func c17Step(x *engine.Exec) []engine.Failure {
 		}
 		if a.TotalTokens.IsPositive() && a.TotalTokens.LTE(mi("2")) {
 			x.Cnt.Inc("endblock.with_dust_only_asset")
+		}
+	}
+	for v := range prev.Vals {
+		for _, den := range prev.Denoms {
+			a := prev.Assets[den]
+			vs := prev.Vals[v].ValShares[den]
+			if vs == nil || vs.Sign() <= 0 || !a.TotalValidatorShares.IsPositive() {
+				continue
+			}
+			// the module's own 18-decimal pricing of the validator's shares: shares/total shares (rounded) x total tokens
+			if ratDec(vs).Quo(a.TotalValidatorShares).MulInt(a.TotalTokens).IsZero() {
+				x.Cnt.Inc("endblock.with_validator_share_priced_at_zero_tokens")
+				for _, amt := range modulePending(x.W, x.Prev.Ctx, v) {
+					if amt.Sign() > 0 {
+						x.Cnt.Inc("endblock.with_pending_rewards_on_zero_priced_validator")
+						break
+					}
+				}
+			}
 		}
 	}
 	if x.Res.Err == nil {
@@ -144,14 +164,37 @@ func init() {
 					Required: []string{"endblock.runs", "accepted.gov_params", "accepted.gov_update", "slash", "endblock.with_dust_only_asset", "endblock.with_empty_or_drained_asset"},
 				}
 			}
+			// magnitudes: a validator whose share of an asset prices to zero tokens at 18 decimals (1 base unit against 3e18 and
+			// 1e30 elsewhere) next to a regular position of another asset, with rewards pending on it when the rebalance settles
+			magOps := func(n *engine.Node) []world.Op {
+				return Alpha{Dels: []int{0, 1}, Vals: []int{0, 1}, Denoms: []string{"aaa", "bbb"}, DelAmts: []string{"1", "10"}, UndAll: true, Claim: true,
+					SlashVals: []int{0, 1}, SlashF: []string{"0.5"},
+					Rewards:  []world.Op{{K: world.KReward, Denom: "stake", Amt: "1000"}},
+					BlockDts: dts(1, 3),
+					Extra: func(n *engine.Node) []world.Op {
+						return []world.Op{{K: world.KDelegate, D: 0, V: 0, Denom: "aaa", Amt: "1000000000000000000000000000000", Class: ClsUser}}
+					}}.Ops(n)
+			}
+			mag := func(budgets []int, depth int) *engine.Scenario {
+				sc := mk("c17-magnitude", cfg, world.ModuleStores, budgets, depth)
+				sc.Seeds = [][]world.Op{
+					{opDel(0, 0, "aaa", "3000000000000000000"), opDel(1, 1, "aaa", "1"), opDel(1, 1, "bbb", "5"), opBlock(1)},
+					{opDel(0, 0, "aaa", "3000000000000000000"), opDel(0, 0, "bbb", "5"), opDel(1, 1, "aaa", "1"), opBlock(1)},
+				}
+				sc.Ops = magOps
+				sc.Required = []string{"endblock.runs", "endblock.with_validator_share_priced_at_zero_tokens", "endblock.with_pending_rewards_on_zero_priced_validator"}
+				return sc
+			}
 			if tier == "thorough" {
 				return []*engine.Scenario{
+					mag([]int{3, 1, 2, 3, 0}, 8),
 					mk("c17-module", cfg, world.ModuleStores, []int{3, 1, 1, 3, 2}, 8),
 					mk("c17-pipeline", full, world.AllStores, []int{2, 1, 2, 3, 1}, 6),
 					unionScenario("C17", "c17-union", tier, c17Step, nil),
 				}
 			}
 			return []*engine.Scenario{
+				mag([]int{2, 1, 1, 2, 0}, 5),
 				mk("c17-module", cfg, world.ModuleStores, []int{2, 1, 1, 2, 1}, 4),
 				mk("c17-pipeline", full, world.AllStores, []int{1, 1, 1, 2, 1}, 3),
 				unionScenario("C17", "c17-union", tier, c17Step, nil),
@@ -166,3 +209,9 @@ func init() {
 }
 
 func mathOne() math.LegacyDec { return math.LegacyOneDec() }
+
+// ratDec converts an 18-decimal rational back into the SDK's fixed-point type (truncating).
+func ratDec(r *big.Rat) math.LegacyDec {
+	scaled := new(big.Rat).Mul(r, new(big.Rat).SetInt(new(big.Int).Exp(big.NewInt(10), big.NewInt(18), nil)))
+	return math.LegacyNewDecFromBigIntWithPrec(world.Floor(scaled), 18)
+}
